@@ -34,9 +34,17 @@ def main():
     local = LibDriver(ctx, tags, tags.TagLibrary(), 'instance', 'local')
     tried, violation = [], None
     try:
+        first = rng.choice(['global', 'local'])       # which library performs the very first add_tag of the process
+        (glob if first == 'global' else local).add(rng.choice(ORDINARY))
+        ctx.count('first_add_' + first)
         glob.full_check(rng)
-        for n in gen_names(rng, rng.randint(10, 30), HOSTILE_MODULE, runtime_hostile(tags), own_attribute_names(tags)):
-            d = glob if rng.random() < 0.7 else local
+        local.full_check(rng)
+        names = gen_names(rng, rng.randint(10, 30), HOSTILE_MODULE, runtime_hostile(tags), own_attribute_names(tags))
+        # closure: every name the library class itself defines is tried on BOTH libraries in every history
+        closure = [n for n in dir(tags.TagLibrary) if not n.startswith('__') or n in ('__len__', '__class__', '__dict__', '__weakref__', '__init__')]
+        rng.shuffle(closure)
+        for n in names + closure:
+            d = glob if rng.random() < (0.7 if n not in closure else 0.5) else local
             d.add(n)
             tried.append([d.label, n if len(n) < 40 else n[:20] + '...'])
             glob.full_check(rng)
